@@ -243,6 +243,8 @@ def gen_grouping(rng, ids: List[str]):
 def grouping_label(g, ids):
     if g[0] == "none":
         return "none"
+    if any(n not in ids for n in g[1]):
+        return f"{g[0]}:malformed"
     left = [i for i in ids if (i in g[1]) == (g[0] == "by")]
     return f"{g[0]}:{'no-id-left' if not left else 'all-ids' if len(left) == len(ids) else 'some-ids'}"
 
@@ -299,6 +301,13 @@ def gen_main(rng, src: str, sh: G.Shape, form: str, want_having: bool, defect: O
     """aggregation over the named dataset `src` of shape sh -> spec or None"""
     ids = [n for n, _ in sh.ids]
     g = gen_grouping(rng, ids)
+    if not defect and sh.ms and rng.random() < 0.03:
+        # malformed grouping (a measure / an unknown component): the same semantic error code is expected from both sides
+        bad = rng.choice(["Id_9"] + ([sh.ms[0][0]] if form == "agg" else []))
+        good = rng.sample(ids, rng.randrange(0, len(ids) + 1))
+        names = good + [bad] if rng.random() < 0.5 else [bad] + good
+        g = [rng.choice(["by", "except"]), names]
+        want_having = False
     if want_having and g[0] == "none":
         g = ["by", rng.sample(ids, rng.randrange(1, len(ids) + 1))] if ids else g
         if g[0] == "none":
@@ -377,11 +386,22 @@ def unsupported_having(s, sh: G.Shape) -> Optional[str]:
         if c is None:
             if len(sh.ms) != 1:
                 return "clause:count()-item-and-operand-with-several-measures"
-        elif c[0] != "col":
-            continue
         elif any(json.loads(x) != c and json.loads(x)[0] == "col" for x in comps):
             return "clause:condition-on-another-component-than-the-aggregated-one"
     return andor
+
+
+def engine_limitation(s, sh: G.Shape) -> Optional[str]:
+    """names the known engine limitation a statement runs into (None when the shape is supported); the label starts the key of
+    the finding"""
+    if s["kind"] == "agg" and s["op"] in ("min", "max") and not sh.ms:
+        g, ids = s["grouping"], [n for n, _ in sh.ids]
+        if not [i for i in ids if (g[0] == "by" and i in g[1]) or (g[0] == "except" and i not in g[1])]:
+            return "min-max:operand-without-measures-and-no-identifier-left"
+    if s["kind"] in ("agg", "clause"):
+        u = unsupported_having(s, sh)
+        return ("having:" + u) if u else None
+    return None
 
 
 def make_case(rng, tier, stream="main"):
@@ -396,6 +416,7 @@ def make_case(rng, tier, stream="main"):
             mtypes = list(G.BASIC)
         nm = None
         andor_noid = stream == "defect" and rng.random() < 0.3
+        minmax_nomeasure = stream == "defect" and not andor_noid and rng.random() < 0.2
         if andor_noid:
             nm = 1
         elif stream == "defect":
@@ -403,7 +424,7 @@ def make_case(rng, tier, stream="main"):
         elif want_having and form == "agg":
             nm = 1
         d = gen_dataset(rng, tier, mtypes, nm)
-        if stream == "main" and rng.random() < 0.04:
+        if (stream == "main" and rng.random() < 0.04) or minmax_nomeasure:
             d["shape"] = G.Shape(d["shape"].ids, [])       # no measures: count / min / max only
             d["rows"] = [(k, []) for k, _ in d["rows"]]
         dss = {"DS_1": d}
@@ -429,6 +450,8 @@ def make_case(rng, tier, stream="main"):
                 s1 = gen_main(rng, "DS_1", sh, "clause", False)
                 if s1 is None or any(op not in EXACT_OPS for _, op, _ in s1["items"]):
                     continue
+            if engine_limitation(s1, sh) is not None:
+                continue
             sh1 = G.shape_of(stmt_vtl(s1), structs)
             if sh1 is None:
                 continue
@@ -436,8 +459,15 @@ def make_case(rng, tier, stream="main"):
             src, sh = "T_1", sh1
             if want_having and form == "agg" and len(sh.ms) != 1:
                 want_having = False
-        s = gen_main(rng, src, sh, form, want_having, defect=(stream == "defect" and not andor_noid) or None)
+        if minmax_nomeasure:
+            ids_all = [n for n, _ in sh.ids]
+            s = {"kind": "agg", "op": rng.choice(["min", "max"]), "src": src,
+                 "grouping": rng.choice([["none", []], ["except", ids_all]]), "having": None}
+        else:
+            s = gen_main(rng, src, sh, form, want_having, defect=(stream == "defect" and not andor_noid) or None)
         if s is None:
+            continue
+        if andor_noid and not s.get("having"):
             continue
         if andor_noid:       # no identifier left + a condition combining two aggregates
             s["grouping"] = ["except", [n for n, _ in sh.ids]]
@@ -445,7 +475,7 @@ def make_case(rng, tier, stream="main"):
                 s["having"] = ["bin", rng.choice(["and", "or"]), s["having"], gen_having(rng, [(["col", sh.ms[0][0]], sh.ms[0][1])])]
                 if s["having"][3][0] == "bin" and s["having"][3][1] in ("and", "or"):
                     s["having"][3] = s["having"][3][2]
-        lim = unsupported_having(s, sh)
+        lim = engine_limitation(s, sh)
         if stream == "main" and lim is not None:
             continue
         if stream == "defect" and lim is None:
@@ -478,8 +508,11 @@ def case_from_json(j):
     sh = dss["DS_1"]["shape"]
     if len(stmts) > 1:
         sh = G.shape_of(stmt_vtl(stmts[0][1]), structs) or sh
+    lim = engine_limitation(stmts[-1][1], sh)
+    if len(stmts) > 1:
+        lim = engine_limitation(stmts[0][1], dss["DS_1"]["shape"]) or lim
     return {"dss": dss, "structs": structs, "dps": dps, "stmts": stmts, "stream": j.get("stream", "main"),
-            "limitation": unsupported_having(stmts[-1][1], sh), "src_shape": sh, "null_groups": 0}
+            "limitation": lim, "src_shape": sh, "null_groups": 0}
 
 
 # ------------------------------------------------------------------ running both sides
@@ -574,7 +607,7 @@ class EngineRuns:
 
 def eval_model(cases, tag):
     return coq_eval(HEADER, [f"run_ascript {G.inputs_coq({n: d for n, d in c['dss'].items()})} {coq_of(c['stmts'])} \"DS_r\"" for c in cases], tag,
-                    shard=max(40, -(-len(cases) // 8)))
+                    shard=max(60, min(400, -(-len(cases) // 5))))
 
 
 def _num(v) -> Optional[Fraction]:
@@ -889,7 +922,7 @@ def disagreement_key(c, er, verdict_engine_bad: bool) -> str:
     form = "standalone" if s["kind"] == "agg" else "clause"
     if c.get("limitation"):
         tail = f"{er['err'][0]}-{er['err'][1]}" if not er["ok"] else "wrong-result"
-        return f"having:{c['limitation']}:{tail}"
+        return f"{c['limitation']}:{tail}"
     ops = "+".join(sorted(set(_ops_of(s))))[:60]
     if not er["ok"]:
         return f"engine-error:{er['err'][0]}-{er['err'][1]}:{form}:{ops}"
